@@ -308,7 +308,6 @@ Section Generic.
 End Generic.
 
 (* ---------- RadixString ---------- *)
-Definition str_ok (s : list N) : Prop := Forall (fun b => b < 256) s.
 
 Lemma msd_str_sorts th data :
   Forall str_ok data ->
